@@ -227,7 +227,7 @@ PROPERTIES.update({
     },
     "C30": {
         "level": "proof",
-        "verus": [("u04_ids", ["exid_to_opid", "get_actor_safe", "new", "remove_actor", "rewrite_with_new_actor", "with_new_actor", "without_actor", "actor"]),
+        "verus": [("u04_ids", ["exid_to_opid", "exid_to_obj", "get_actor_safe", "new", "remove_actor", "rewrite_with_new_actor", "with_new_actor", "without_actor", "actor"]),
                   ("u16_autocommit", ["ensure_transaction_open", "ensure_transaction_closed", "commit_with", "empty_change", "set_actor", "load_incremental", "apply_changes", "apply_changes_batch", "merge", "save_with_options", "fork"]),
                   ("u18_actor_table", "*"), ("u23_exid_order", "*")],
         "kani": ["u04_opid_order", "u04_opid_actor_shift", "u04_opid_new"],
@@ -242,7 +242,7 @@ PROPERTIES.update({
     },
     "C37": {
         "level": "proof",
-        "verus": [("u04_ids", ["exid_to_opid", "op_cursor_to_opid", "new", "get_actor_safe"]), ("u16_autocommit", ["ensure_transaction_open", "commit_with", "empty_change", "ensure_transaction_closed"]), ("u19_import", "*"),
+        "verus": [("u04_ids", ["exid_to_opid", "exid_to_obj", "op_cursor_to_opid", "new", "get_actor_safe"]), ("u16_autocommit", ["ensure_transaction_open", "commit_with", "empty_change", "ensure_transaction_closed"]), ("u19_import", "*"),
                   ("u21_patchlog_tx", "*"), ("u26_skipper", "*"), ("u27_hydrate_list", "*")],
         "kani": ["u04_opid_new", "u12_normalize_range", "u08_width_single_scalar", "u04_changehash_try_from_slice"],
         "not_under_contract": ["every other public entry point", "the ~100 internal OpId::new call sites", "hydrate::Value::apply (path descent), hydrate::Map::apply"],
